@@ -97,7 +97,7 @@ void checkRanges(Ctx& c, const rl::SyntaxTree& ast, const std::string& text, con
 }
 
 std::string optTag(const RenderOpt& o) {
-  return std::string(o.syn == Syn::MATH ? "MATH" : "ASCII") + "/" + (o.paren == Paren::MIN ? "min" : o.paren == Paren::MAX ? "max" : "one" + std::to_string(o.oneIndex)) + "/ws" + std::to_string(o.ws);
+  return std::string(o.syn == Syn::MATH ? "MATH" : "ASCII") + "/" + (o.paren == Paren::MIN ? "min" : o.paren == Paren::MAX ? "max" : (o.paren == Paren::ONE ? "one" : "two") + std::to_string(o.oneIndex)) + "/ws" + std::to_string(o.ws);
 }
 
 std::vector<Node> space(const Options& opt) {
@@ -137,6 +137,8 @@ void run_parse(Ctx& c, const std::vector<Node>& trees) {
         { RenderOpt o = base; o.paren = Paren::MAX; opts.push_back(o); o.ws = 1; opts.push_back(o); }
         for (int i = 0; i < sites && i < 12; ++i) { RenderOpt o = base; o.paren = Paren::ONE; o.oneIndex = i; opts.push_back(o); }
       }
+      { const int tsites = render(T, base).termSites; if (tsites > 0) anyParen = true;   // doubled redundant parentheses around each parenthesisable term
+        for (int i = 0; i < tsites && i < 8; ++i) { RenderOpt o = base; o.paren = Paren::TWO; o.oneIndex = i; opts.push_back(o); } }
       for (auto& o : opts) {
         const Rendered r = render(T, o);
         const std::string tag = optTag(o);
@@ -147,7 +149,9 @@ void run_parse(Ctx& c, const std::vector<Node>& trees) {
         const std::string diff = compareTree(parser.AST().Root(), expect, &r.span, pre, &posDiff);
         if (!diff.empty()) { c.fail("C06:wrong-tree:" + std::string(o.paren == Paren::MIN ? "min" : "optparen"), tag + " text: " + r.text + " :: " + diff, rl::AST2String::Apply(parser.AST()), expectDump); continue; }
         if (rl::AST2String::Apply(parser.AST()) != expectDump) c.fail("C06:ast2string", tag + " AST2String differs from the tree dump for: " + r.text, rl::AST2String::Apply(parser.AST()), expectDump);
-        if (!posDiff.empty()) c.fail(std::string("C06:position:") + (syn == Syn::MATH ? "MATH" : "ASCII") + (o.ws == 2 ? ":multiline" : ""), tag + " text: " + r.text + " :: " + posDiff);
+        // doubled parentheses: which of the two pairs belongs to the node's range is not documented (the parser keeps the inner
+        // pair) - only the tree, nesting of ranges and FindMinimalNode are asserted for these renderings
+        if (!posDiff.empty() && o.paren != Paren::TWO) c.fail(std::string("C06:position:") + (syn == Syn::MATH ? "MATH" : "ASCII") + (o.ws == 2 ? ":multiline" : ""), tag + " text: " + r.text + " :: " + posDiff);
         checkRanges(c, parser.AST(), r.text, tag);
       }
     }
@@ -270,7 +274,7 @@ int main(int argc, char** argv) {
   if (opt.mode == "parse") {
     res.property = "C06";
     res.rep = run_sharded(opt, "parse", [&](Ctx& c) { run_parse(c, trees); }, &ri);
-    res.rule = "case = one abstract tree, rendered under MATH and ASCII x {min, max, each single optional parenthesis pair} x 3 whitespace policies; oracle: parsed tree structurally equals the rendered tree, every node range equals the renderer's span, ranges nest, FindMinimalNode exact; non-trivial = tree has >= 1 optional parenthesis site";
+    res.rule = "case = one abstract tree, rendered under MATH and ASCII x {min, max, each single optional parenthesis pair, each parenthesisable term doubly parenthesised} x 3 whitespace policies; oracle: parsed tree structurally equals the rendered tree, every node range equals the renderer's span, ranges nest, FindMinimalNode exact; non-trivial = tree has >= 1 optional parenthesis site";
     res.transitions = res.rep.counters["renderings"];
   } else if (opt.mode == "roundtrip") {
     res.property = "C05";
